@@ -274,6 +274,10 @@ class Conversion:
         elif prec is not None:
             if prec > SSIZE_MAX:
                 raise PrecisionRangeError(s, width)
+            if (conv in i.int_cvt) and (prec > SSIZE_MAX - 3):
+                # Python cannot format an integer with such a precision,
+                # whatever the argument ("OverflowError: precision too large").
+                raise PrecisionRangeError(s, prec)
         if prec is not None:
             if (conv in i.int_cvt) and ('0' in flags):
                 parent.warn(RedundantFlag, s, '0')
